@@ -250,6 +250,27 @@ fn odd_requests(rng: &mut StdRng) -> Vec<String> {
         "/example.helloworld.Greeter2/SayHello".into(), "/example.helloworld.Greete/x".into(), "/a.b/c/d/e".into(),
         "x".repeat(70_000), format!("/{}", "y/".repeat(2_000)), "/🦀/𝄞".into(),
     ];
+    // long strings with multi-byte characters at every byte alignment (whatever a router does with
+    // a route - truncate it for a log line, split it, index into it - must respect char boundaries)
+    for _ in 0..10 {
+        let pad = rng.gen_range(0..8);
+        let ch = *['é', 'ß', '日', '語', '🦀', '𝄞', 'а', '\u{800}'].choose(rng).unwrap();
+        let n = rng.gen_range(20..200);
+        let mut s = String::from("/");
+        s.push_str(&"a".repeat(pad));
+        for i in 0..n {
+            s.push(ch);
+            if i % 17 == 16 {
+                s.push('/');
+            }
+        }
+        v.push(s);
+    }
+    for _ in 0..4 {
+        let n = rng.gen_range(100..400);
+        let s: String = (0..n).map(|_| *['/', 'a', 'é', '日', '🦀', '.', 'ü'].choose(rng).unwrap()).collect();
+        v.push(s);
+    }
     for _ in 0..6 {
         let n = rng.gen_range(0..40);
         let s: String = (0..n).map(|_| *['/', 'a', 'b', '*', ':', '.', 'é', ' ', '\n', '{', '}'].choose(rng).unwrap()).collect();
